@@ -136,7 +136,7 @@ Print Assumptions C19_filter_section_unbound_refuted.
    from the current source on every run (Generated/Kernels.v); each tie states that the translated
    function equals the model definition used above, on the whole range of the Go types
    (Generated/KernelTie.v; `True` for a kernel the translator reports as not translated). ---- *)
-From BS Require Import Generated.KernelTie Proofs.KernelEquivT.
+From BS Require Import Generated.KernelTie Proofs.KTie_validate_fs Proofs.KTie_validate Proofs.KTie_plan_reads.
 
 Theorem C19_kernel_tie_validate_fs : tie_validate_fs.
 Proof. exact k_validate_fs_tie. Qed.
